@@ -218,6 +218,24 @@ def correspondence_ext(ctx: Ctx):
                            "bucket": "engine-model-choice"}
 
 
+LO, HI = 2.0 ** -60, 2.0 ** 60
+
+
+def check_map_ranged(S: torch.Tensor, src: torch.Tensor, what: str):
+    """`base.check_map`, with the pixels whose coil vector lies outside the documented float32 range (largest magnitude
+    over coils and components not in [2^-60, 2^60], and not 0) judged for finiteness only (the stated partial)"""
+    if not torch.isfinite(S).all():
+        return f"{what}-nonfinite", "the sensitivity map contains NaN or Inf"
+    if src is None or not torch.isfinite(src).all():
+        return base.check_map(S, src if src is None else None, what)
+    m = src.abs().amax(dim=(1, -1), keepdim=True) if src.shape[1] > 0 else src.abs().sum(dim=(1, -1), keepdim=True)
+    ok = (m == 0) | ((m >= LO) & (m <= HI))
+    if ok.all():
+        return base.check_map(S, src, what)
+    okb = ok.expand_as(S)
+    return base.check_map(torch.where(okb, S, torch.zeros_like(S)), torch.where(okb, src, torch.zeros_like(src)), what)
+
+
 # --------------------------------------------------------------------------------------------------
 # oracle: option x size matrix on the real module (real inverse FFT)
 def _kdata(seed, shape, scale_exp, feat):
@@ -273,7 +291,7 @@ def matrix_case(spec: dict):
                 return f"{what}-keys", f"unexpected keys in the sample: {sorted(sample)}"
     if list(S.shape) != shape:
         return f"{what}-shape", f"sensitivity map of shape {list(S.shape)} for k-space {shape}"
-    return base.check_map(S, src, what)
+    return check_map_ranged(S, src, what)
 
 
 def matrix_specs(ctx: Ctx, deep: bool):
@@ -285,7 +303,7 @@ def matrix_specs(ctx: Ctx, deep: bool):
             for acs in ("full", "empty", "centre"):
                 for _ in range(reps):
                     yield {"spatial": list(spatial), "typ": typ, "sigma": sigma, "acs": acs, "b": rng.choice([1, 2]),
-                           "c": rng.choice([0, 1, 1, 2, 3, 5]), "feat": rng.choice(["plain", "plain", "zero-coil", "zero-border", "all-zero"]),
+                           "c": rng.choice([1, 1, 2, 3, 5]), "feat": rng.choice(["plain", "plain", "zero-coil", "zero-border", "all-zero"]),
                            "scale": rng.choice([-50, -20, 0, 0, 0, 20, 50]), "seed": rng.randrange(1, 2 ** 20),
                            "wrapped": rng.random() < 0.25, "key": rng.choice(["kspace", "kspace", "masked_kspace"]),
                            "backward": rng.choice(["ifft2", "ifft2", "ifft2-uncentered", "ifft2-unnormalized"])}
@@ -377,7 +395,8 @@ def history_case(spec: dict):
         b, c = rnd.choice([1, 2]), rnd.choice([1, 2, 3])
         if typ == SensitivityMapType.ESPIRIT:
             spatial, c = [6 + j % 3, 8 + j % 2], rnd.choice([1, 2])
-        k = _kdata(spec["seed"] + j, [b, c] + spatial + [2], 0, rnd.choice(["plain", "zero-coil", "zero-border"]))
+        feat = rnd.choice(["plain", "zero-coil", "zero-border"])
+        k = _kdata(spec["seed"] + j, [b, c] + spatial + [2], 0, "plain" if typ == SensitivityMapType.ESPIRIT else feat)
         acs = make_acs(rnd, b, spatial, "full" if typ == SensitivityMapType.ESPIRIT else rnd.choice(["full", "centre", "empty"]), True)
         steps.append((k, acs))
     steps.append(steps[0])                       # come back to the first sample at the end
